@@ -446,6 +446,81 @@ class Interp:
         self.raised = None
 
     # ------------------------------------------------------------ function call
+    def itertools_call(self, n, args, kw, e, env):
+        if n == 'chain':
+            out_ = []
+            for a_ in args:
+                out_.extend(self.iterate(a_, e))
+            return AList(out_)
+        if n == 'islice' and 2 <= len(args) <= 4 and all(a_ is None or (isinstance(a_, AInt) and a_.v is not None) for a_ in args[1:]):
+            seq = list(self.iterate(args[0], e))
+            idx = [None if a_ is None else a_.v for a_ in args[1:]]
+            sl = slice(idx[0]) if len(idx) == 1 else slice(*idx)
+            return AList(seq[sl])
+        if n == 'compress' and len(args) == 2:
+            return AList([d_ for d_, s_ in zip(self.iterate(args[0], e), self.iterate(args[1], e)) if self.truth(s_, e)])
+        if n == 'accumulate' and 1 <= len(args) <= 2:
+            seq = list(self.iterate(args[0], e))
+            out_ = []
+            acc = kw.get('initial')
+            if acc is not None:
+                out_.append(acc)
+            for el in seq:
+                if acc is None:
+                    acc = el
+                elif len(args) == 2:
+                    acc = self.apply_callable(args[1], [acc, el], {}, e, env)
+                else:
+                    acc = self.binop(ast.Add(), acc, el)
+                out_.append(acc)
+            return AList(out_)
+        if n == 'reduce' and 2 <= len(args) <= 3:
+            seq = list(self.iterate(args[1], e))
+            if len(args) == 3:
+                acc = args[2]
+            elif seq:
+                acc, seq = seq[0], seq[1:]
+            else:
+                raise PyError('TypeError', e.lineno)
+            for el in seq:
+                acc = self.apply_callable(args[0], [acc, el], {}, e, env)
+            return acc
+        return NotImplemented
+
+    def apply_callable(self, f, args, kw, node, env):
+        """call a function value (AFunc, AClass, functools.partial / operator.* objects)"""
+        if isinstance(f, AFunc):
+            a_ = ([f.bound] if f.bound is not None else []) + list(args)
+            return self.call_function(f.fn, a_, kw, closure=f.closure, module=f.module)
+        if isinstance(f, AClass):
+            return self.instantiate(f, args, kw, node)
+        if isinstance(f, AObj) and '__callable__' in f.attrs:
+            kind = f.attrs['__callable__']
+            if kind == 'partial':
+                kw2 = dict(f.attrs['kw']); kw2.update(kw)
+                return self.apply_callable(f.attrs['args'][0], list(f.attrs['args'][1:]) + list(args), kw2, node, env)
+            if kind == 'attrgetter' and len(args) == 1 and len(f.attrs['args']) == 1 and isinstance(f.attrs['args'][0], AStr) and f.attrs['args'][0].literal():
+                env2 = {'__x': args[0]}
+                cur = ast.Name(id='__x', ctx=ast.Load())
+                for part in f.attrs['args'][0].literal().split('.'):
+                    cur = ast.Attribute(value=cur, attr=part, ctx=ast.Load())
+                ast.copy_location(cur, node); ast.fix_missing_locations(cur)
+                return self.expr(cur, env2)
+            if kind == 'itemgetter' and len(args) == 1 and len(f.attrs['args']) == 1:
+                env2 = {'__x': args[0], '__k': f.attrs['args'][0]}
+                c_ = ast.Subscript(value=ast.Name(id='__x', ctx=ast.Load()), slice=ast.Name(id='__k', ctx=ast.Load()), ctx=ast.Load())
+                ast.copy_location(c_, node); ast.fix_missing_locations(c_)
+                return self.expr(c_, env2)
+            if kind == 'methodcaller' and len(args) == 1 and isinstance(f.attrs['args'][0], AStr) and f.attrs['args'][0].literal():
+                env2 = {'__x': args[0]}
+                names = []
+                for i_, a_ in enumerate(f.attrs['args'][1:]):
+                    env2[f"__a{i_}"] = a_; names.append(ast.Name(id=f"__a{i_}", ctx=ast.Load()))
+                c_ = ast.Call(func=ast.Attribute(value=ast.Name(id='__x', ctx=ast.Load()), attr=f.attrs['args'][0].literal(), ctx=ast.Load()), args=names, keywords=[])
+                ast.copy_location(c_, node); ast.fix_missing_locations(c_)
+                return self.expr(c_, env2)
+        raise Unknown(f"call of {f!r} at line {getattr(node, 'lineno', 0)}")
+
     def module_name(self, m, name):
         hit = m.lookup(name)
         if hit is None:
@@ -1662,6 +1737,10 @@ class Interp:
             raise Unknown(f"call of the unknown value {env[f.id]!r} bound to {f.id} at line {e.lineno}")
         if isinstance(f, ast.Name) and (f.id in env or (self.module is not None and f.id in self.module.funcs and f.id not in self.functions)):
             fv = self.expr(f, env)
+        elif isinstance(f, ast.Name) and self.module is not None and f.id not in self.classes and f.id not in self.functions and f.id in self.module.assigns:
+            cand_ = self.module_name(self.module, f.id)
+            if isinstance(cand_, (AFunc, AClass)) or (isinstance(cand_, AObj) and '__callable__' in cand_.attrs):
+                fv = cand_
         elif isinstance(f, (ast.Subscript, ast.Call, ast.IfExp)):
             fv = self.expr(f, env)
         if fv is None and isinstance(f, ast.Name) and f.id not in env and f.id not in self.classes and f.id not in self.functions and self.module is not None:
@@ -1684,6 +1763,8 @@ class Interp:
                 cand = self.expr(f, env)
                 if isinstance(cand, (AFunc, AClass)):
                     fv = cand
+        if isinstance(fv, AObj) and '__callable__' in fv.attrs:
+            return self.apply_callable(fv, args, kw, e, env)
         if isinstance(fv, AClass):
             return self.instantiate(fv, args, kw, e)
         if isinstance(fv, AFunc):
@@ -1763,6 +1844,22 @@ class Interp:
                     ast.copy_location(c_, e); ast.fix_missing_locations(c_)
                     out_.append(self.expr(c_, env2))
                 return AList(out_)
+            if n in ('chain', 'islice', 'compress', 'accumulate', 'reduce', 'tee', 'starmap', 'repeat', 'zip_longest') and n not in env:
+                r_ = self.itertools_call(n, args, kw, e, env)
+                if r_ is not NotImplemented:
+                    return r_
+            if n in ('partial', 'attrgetter', 'itemgetter', 'methodcaller') and n not in env and args:
+                return AObj(__callable__=n, args=list(args), kw=dict(kw), nodes=list(e.args), kwnodes=list(e.keywords))
+            if n == 'any' and len(args) == 1 and not kw:
+                for el in self.iterate(args[0], e):
+                    if self.truth(el, e):
+                        return True
+                return False
+            if n == 'all' and len(args) == 1 and not kw:
+                for el in self.iterate(args[0], e):
+                    if not self.truth(el, e):
+                        return False
+                return True
             if n == 'filter' and len(e.args) == 2 and not kw:
                 out_ = []
                 none_pred = isinstance(e.args[0], ast.Constant) and e.args[0].value is None
@@ -1930,6 +2027,22 @@ class Interp:
                 if isinstance(x, ABytes):
                     return AInt(None, None)
             return AOpaque(f"{n}()")
+        if isinstance(f, ast.Attribute) and isinstance(f.value, ast.Name) and f.value.id == 'chain' and f.attr == 'from_iterable' and len(args) == 1 and 'chain' not in env:
+            out_ = []
+            for part in self.iterate(args[0], e):
+                out_.extend(self.iterate(part, e))
+            return AList(out_)
+        if isinstance(f, ast.Attribute) and isinstance(f.value, ast.Attribute) and isinstance(f.value.value, ast.Name) and f.value.value.id == 'itertools' and f.value.attr == 'chain' and f.attr == 'from_iterable' and len(args) == 1:
+            out_ = []
+            for part in self.iterate(args[0], e):
+                out_.extend(self.iterate(part, e))
+            return AList(out_)
+        if isinstance(f, ast.Attribute) and isinstance(f.value, ast.Name) and f.value.id in ('itertools', 'functools', 'operator') and f.value.id not in env:
+            if f.attr in ('partial', 'attrgetter', 'itemgetter', 'methodcaller') and args:
+                return AObj(__callable__=f.attr, args=list(args), kw=dict(kw), nodes=list(e.args), kwnodes=list(e.keywords))
+            r_ = self.itertools_call(f.attr, args, kw, e, env)
+            if r_ is not NotImplemented:
+                return r_
         if isinstance(f, ast.Attribute):
             m = f.attr
             # bytes.fromhex(x)
@@ -2093,6 +2206,9 @@ class Interp:
                     return AList(o.items)
                 if m == 'count' and len(args) == 1:
                     return AInt(sum(1 for x in o.items if self.truth(self.compare(ast.Eq(), x, args[0], e), e)))
+                if m == 'isdisjoint' and len(args) == 1:
+                    other_ = AList(list(self.iterate(args[0], e)))
+                    return not any(self.compare(ast.In(), x, other_, e) for x in o.items)
                 if m == 'clear' and not args:
                     o.items.clear(); return None
                 if m == 'index' and len(args) == 1:
